@@ -2,6 +2,8 @@
 // (1) the factory table: every row x operand rotation x type supplied / not supplied, evaluated against the row's type
 // rule (fixed / given / absent / borrowed-with-exception-equivalence);
 // (2) every addition sequence of length <= 5 over 3 element types for each growing container.
+#include <memory>
+
 #include "zoo/zoo.hpp"
 
 namespace {
@@ -21,6 +23,38 @@ namespace {
       build_all(c);
       rep.count("states", (long long) c.entries.size());
       rep.count("traces");
+      // the type a node reports must still be the prescribed one after the factories have been used again with other
+      // operands (whole table rebuilt in units of their own on the same Lexicon, every other rotation)
+      c.prop = "";
+      const std::size_t n = c.entries.size();
+      std::vector<const ipr::Type*> ty(n, nullptr);
+      std::vector<char> refused(n, 0);
+      auto read = [&](std::size_t i, const ipr::Type*& t, char& r) {
+         t = nullptr; r = 0;
+         if (c.entries[i].as_expr == nullptr) return;
+         try { t = &c.entries[i].as_expr->type(); } catch (const std::logic_error&) { r = 1; }
+      };
+      for (std::size_t i = 0; i < n; ++i) read(i, ty[i], refused[i]);
+      std::vector<std::unique_ptr<ipr::impl::Translation_unit>> units;
+      std::vector<std::unique_ptr<Ctx>> ctxs;
+      for (int r2 = 0; r2 < 12; ++r2) {
+         if (r2 == rot) continue;
+         units.push_back(std::make_unique<ipr::impl::Translation_unit>(lex));
+         ctxs.push_back(std::make_unique<Ctx>(lex, *units.back()));
+         ctxs.back()->rot = r2;
+         ctxs.back()->prop = "";
+         build_all(*ctxs.back());
+      }
+      for (std::size_t i = 0; i < n; ++i) {
+         if (c.entries[i].as_expr == nullptr) continue;
+         const ipr::Type* t; char r;
+         read(i, t, r);
+         rep.count("transitions");
+         if (t != ty[i] or r != refused[i])
+            rep.violation("C09:" + c.entries[i].row + ":type-changed-by-later-constructions", rot * 100 + 50,
+                          "the type reported by the " + c.entries[i].iface + " built by row " + c.entries[i].row + " is no longer the one it reported when built, after the factories were used again with other operands [operand rotation " + std::to_string(rot) + "]",
+                          vf::JObj{}.str("pass", "C09").str("row", c.entries[i].row).raw("ops", vf::jarr(std::vector<long long>{ rot })).done());
+      }
    }
 
    void fail(const std::string& key, const std::vector<long long>& seq, const std::string& what)
